@@ -31,7 +31,7 @@ def obligations(tier):
                   encodes=[]))
     L = 'harness.layouts:'
     dl = [{'kind': 'date', 'culture': 'en-us', 'layout': l} for l in ('iso', 'slash', 'dash', 'month-d-y', 'month-dth-y', 'd-month-y', 'dth-of-month-y')]
-    dl += [{'kind': 'date', 'culture': c, 'layout': l} for c in ('es-es', 'fr-fr', 'pt-br', 'de-de', 'it-it') for l in ('iso', 'slash', 'dash')]
+    dl += [{'kind': 'date', 'culture': c, 'layout': l} for c in ('es-es', 'fr-fr', 'pt-br', 'de-de', 'it-it') for l in ('iso', 'slash', 'dash', 'd-month-y')]
     obs.append(Ob('O6.1-language', 'fn', L + 'inclusion', slices=dl, timeout=t,
                   descr='every date of a supported layout (ISO, numeric with slashes/dashes in the culture\'s day/month order, month name + day [+ ordinal suffix] + year) is fully matched by one of the date patterns',
                   bounds='years 1900..2099, months 1..12, days 1..31, unbounded over the layout language; English 7 layouts, es/fr/pt/de/it numeric layouts (Dutch patterns are not parseable by the translator)',
